@@ -14,6 +14,7 @@ type Check struct {
 	Rule        string
 	Assumptions []string
 	Shards      int // 0 = one per core
+	Procs       int // GOMAXPROCS of each worker (0 = 2); 1 for the cooperative scheduler (hand-offs stay inside one OS thread)
 	Quick       time.Duration
 	Thorough    time.Duration
 	Run         func(c *mc.Ctx)
